@@ -152,6 +152,7 @@ package texttable
 //@   assigns new(TextTable), heap[tabular.callbackSet.renderTime], heap[tabular.callbackSet.addTime], heap[tabular.callbackSet.preCellRenderTime], heap[tabular.callbackSet.postCellRenderTime], heap[[]tabular.PropertyCallback]
 //@   ensures result != nil && fresh(result) && result.Table === t
 //@   ensures [default-decoration-is-complete] complete(result.decor) && !result.decor.isBoxless @C03
+//@   ensures [table-still-wellformed] tbl(t) @C10,C14
 //@   ensures [measuring-callback-registered] len(t.(*tabular.ATable).tableCellCallbacks.renderTime) == old(len(t.(*tabular.ATable).tableCellCallbacks.renderTime)) + 1 && dyn(t.(*tabular.ATable).tableCellCallbacks.renderTime[len(t.(*tabular.ATable).tableCellCallbacks.renderTime) - 1]) == type[dimensionSetter] @C10
 
 //@ func New
@@ -170,13 +171,11 @@ package texttable
 //@ func Render
 //@   tags C09,C10
 //@   requires tbl(t) && t.(*tabular.ATable).nColumns <= 1048576
-//@   call Wrap after assume tbl(t)
 //@   ensures [error-means-no-text] result1 != nil ==> result0 == "" @C09
 
 //@ func RenderTo
 //@   tags C09,C10,C15
 //@   requires tbl(t) && t.(*tabular.ATable).nColumns <= 1048576
-//@   call Wrap after assume tbl(t)
 //@   requires [writer-ok] !Wfailed
 //@   ensures [failing-writer-surfaces] Wfailed ==> result != nil @C15
 
